@@ -27,6 +27,7 @@ type Cfg struct {
 	Origin    string      // node at which the item(s) enter
 	Items     string      // "vertex" | "two-vertices" | "trx"
 	Dup       bool        // allow one duplicate delivery per message
+	Expire    bool        // allow each node's duplicate-suppression window to lapse once (event F:n)
 	Adversary string      // C12: name of the malicious relay ("" = none)
 	Masks     []int       // C12: forgery subsets the adversary may attach (bit mask over 6 forgeries)
 	Prop      string      // "C11" or "C12"
@@ -52,6 +53,9 @@ type Model struct {
 	// orphanAdmitted[node][item]: the node admitted the item outside a first-time gossip delivery
 	// (missing-parent fetch or orphan retry) - the path on which the code never forwards
 	orphanAdmitted map[string]map[[32]byte]bool
+	expired        map[string]bool
+	evCount        int
+	firstBatch     map[string]int // (from|item) -> index of the event in which the node forwarded the item
 }
 
 // New creates the model.
@@ -101,6 +105,9 @@ func (m *Model) Init() {
 	m.items = nil
 	m.advDone = map[int]bool{}
 	m.orphanAdmitted = map[string]map[[32]byte]bool{}
+	m.expired = map[string]bool{}
+	m.evCount = 0
+	m.firstBatch = map[string]int{}
 	for _, n := range m.Cfg.Nodes {
 		m.orphanAdmitted[n] = map[[32]byte]bool{}
 	}
@@ -180,6 +187,13 @@ func (m *Model) onSend(msg *world.Msg) {
 	name := m.itemName(item)
 	valid := world.ValidGossipers(item, msg.Gossipers())
 	m.counters["sends"]++
+	bk := msg.From + "|" + name
+	if ev, ok := m.firstBatch[bk]; !ok {
+		m.firstBatch[bk] = m.evCount
+	} else if ev != m.evCount {
+		m.sendViol = append(m.sendViol, common.Violation{Property: "C11", Predicate: "C11.once", Key: "C11.forwarded-in-two-batches/" + m.itemKind,
+			What: fmt.Sprintf("node %s forwarded %s again (to %s) although it had already forwarded it earlier", msg.From, name, msg.To)})
+	}
 	k := fmt.Sprintf("%s>%s:%s", msg.From, msg.To, name)
 	m.sends[k]++
 	if m.sends[k] > 1 {
@@ -226,6 +240,22 @@ func (m *Model) Enabled() []string {
 			out = append(out, fmt.Sprintf("U:%d", msg.ID))
 		}
 	}
+	if m.Cfg.Expire {
+		for i, f := range m.full {
+			if f.Name == m.Cfg.Adversary || m.expired[f.Name] || len(m.seen[f.Name]) == 0 {
+				continue
+			}
+			pending := false
+			for _, msg := range m.Net.Bag {
+				if msg.To == f.Name && msg.Delivered == 0 {
+					pending = true
+				}
+			}
+			if pending {
+				out = append(out, fmt.Sprintf("F:%d", i))
+			}
+		}
+	}
 	for i, f := range m.full {
 		if f.Name == m.Cfg.Adversary {
 			continue
@@ -245,6 +275,7 @@ func (m *Model) BeforeLast(string) {
 
 // Apply performs one event.
 func (m *Model) Apply(e string) string {
+	m.evCount++
 	before := m.holdMatrix()
 	res, direct, node := m.apply(e)
 	after := m.holdMatrix()
@@ -300,6 +331,13 @@ func (m *Model) apply(e string) (res string, direct [32]byte, node string) {
 			}
 		}
 		return "no-ticker", direct, ""
+	case "F":
+		i, _ := strconv.Atoi(p[1])
+		f := m.full[i]
+		f.Flash.VerifReset()
+		m.seen[f.Name] = map[[32]byte]bool{}
+		m.expired[f.Name] = true
+		return "expired", direct, ""
 	case "A":
 		id, _ := strconv.Atoi(p[1])
 		mask, _ := strconv.Atoi(p[2])
@@ -409,7 +447,17 @@ func (m *Model) Key() string {
 		bag = append(bag, fmt.Sprintf("%s:%s>%s:%s:[%s]/%d", st, msg.From, msg.To, m.itemName(it), strings.Join(world.ValidGossipers(it, msg.Gossipers()), ","), len(msg.Gossipers())))
 	}
 	sort.Strings(bag)
-	k := strings.Join(parts, " ") + " BAG[" + strings.Join(bag, " ") + "]"
+	var exp []string
+	for n := range m.expired {
+		exp = append(exp, n)
+	}
+	sort.Strings(exp)
+	var fb []string
+	for k := range m.firstBatch {
+		fb = append(fb, k)
+	}
+	sort.Strings(fb)
+	k := strings.Join(parts, " ") + " BAG[" + strings.Join(bag, " ") + "] EXP[" + strings.Join(exp, ",") + "] FWD[" + strings.Join(fb, ",") + "]"
 	h := sha256.Sum256([]byte(k))
 	return hex.EncodeToString(h[:12])
 }
